@@ -164,11 +164,20 @@ class Env:
         self.used_inputs[name] = t
         return t
 
+    def _sampled(self, name, kind, lo, hi):
+        inp = self.concrete["inputs"]
+        if name not in inp:
+            smp = self.concrete.get("sampler")
+            if smp is None:
+                inp[name] = (0 if lo is None else lo) if kind != "bool" else False
+            else:
+                inp[name] = smp.draw(name, kind, lo, hi)
+        self.used_inputs[name] = inp[name]
+        return inp[name]
+
     def real(self, name, lo=None, hi=None):
         if not self.symbolic:
-            v = self.concrete["inputs"].get(name, 0)
-            self.used_inputs[name] = v
-            return v
+            return self._sampled(name, "real", lo, hi)
         x = SymNum(self._sym(name, "real"))
         if lo is not None:
             self.assume(x >= lo)
@@ -178,9 +187,7 @@ class Env:
 
     def int(self, name, lo=None, hi=None):
         if not self.symbolic:
-            v = self.concrete["inputs"].get(name, 0 if lo is None else lo)
-            self.used_inputs[name] = v
-            return v
+            return self._sampled(name, "int", lo, hi)
         x = SymNum(self._sym(name, "int"))
         if lo is not None:
             self.assume(x >= lo)
@@ -190,9 +197,7 @@ class Env:
 
     def bool(self, name):
         if not self.symbolic:
-            v = bool(self.concrete["inputs"].get(name, False))
-            self.used_inputs[name] = v
-            return v
+            return bool(self._sampled(name, "bool", None, None))
         return SymBool(self._sym(name, "bool"))
 
     def choice(self, name, options):
@@ -200,9 +205,14 @@ class Env:
         options = list(options)
         if not self.symbolic:
             ch = self.concrete["choices"]
-            k = ch[self._choice_pos] if self._choice_pos < len(ch) else 0
+            if self._choice_pos < len(ch):
+                k = ch[self._choice_pos]
+            else:
+                smp = self.concrete.get("sampler")
+                k = smp.rng.randrange(len(options)) if smp is not None else 0
+                ch.append(k)
             self._choice_pos += 1
-            return options[k]
+            return options[k % len(options)]
         k = self.run.choose(len(options))
         self.ex.choice_log.append((name, k))
         return options[k]
@@ -241,6 +251,8 @@ class Env:
     def prove(self, label, cond, detail=None):
         """obligation: on this path, cond holds for every value of the inputs"""
         ex = self.ex
+        if ex.ignore_label is not None and ex.ignore_label(label):
+            return True
         ex.obl_count[label] = ex.obl_count.get(label, 0) + 1
         if not self.symbolic:
             ok = bool(cond)
@@ -347,6 +359,37 @@ def _fmt(detail):
         return "<detail failed: %r>" % (e,)
 
 
+class Sampler:
+    """concrete input generator for the sampled native pass: ties, near-ties of huge
+    magnitudes, values beyond 32/53 bits, small integers, halves"""
+    BASES = [0, 0, 1, 10, 2 ** 31 - 1, 2 ** 31, 3 * 10 ** 9, 2 ** 40, -(2 ** 31), -(2 ** 31) - 1, -3 * 10 ** 9, 2 ** 45]
+    OFFS = [0, 0, 1, 2, -1, 0.5, 3, -2, 0.25]
+    SMALL = [0, 1, -1, 2, 3, 0.5, -0.5, 5, 7, 10, -3, 100, 1.5]
+
+    def __init__(self, seed):
+        self.rng = random.Random(seed)
+        self.mode = self.rng.choice(["cluster", "small", "small", "mixed"])
+        self.base = self.rng.choice(self.BASES)
+
+    def draw(self, name, kind, lo, hi):
+        r = self.rng
+        if kind == "bool":
+            return r.random() < 0.5
+        if self.mode == "cluster":
+            v = self.base + r.choice(self.OFFS)
+        elif self.mode == "small":
+            v = r.choice(self.SMALL)
+        else:
+            v = r.choice(self.BASES) + r.choice(self.OFFS) if r.random() < 0.4 else r.choice(self.SMALL)
+        if kind == "int":
+            v = int(v)
+        if lo is not None and v < lo:
+            v = lo + (abs(v) % 7 if hi is None else abs(v) % (max(hi - lo, 0) + 1))
+        if hi is not None and v > hi:
+            v = hi - (abs(v) % 7 if lo is None else abs(v) % (max(hi - lo, 0) + 1))
+        return v
+
+
 class Explorer:
     def __init__(self, harness, params=None, max_paths=20000, timeout_s=300.0,
                  solver_timeout_ms=10000, cvc5_timeout=20, seed=0):
@@ -372,6 +415,7 @@ class Explorer:
         self.budget_exhausted = False
         self.error = None
         self.samples = []
+        self.ignore_label = None
 
     def check_budget(self):
         if self.paths + len(self.queue) > self.max_paths * 4 or (time.time() - self.t0) > self.timeout_s:
@@ -422,10 +466,11 @@ class Explorer:
         return self
 
     # ---- concrete (native) run of the same harness
-    def run_concrete(self, inputs, choices):
+    def run_concrete(self, inputs, choices, sampler=None):
         sub = Explorer(self.harness, params=self.params)
+        sub.ignore_label = self.ignore_label
         sub.t0 = time.time()
-        env = Env(sub, concrete=dict(inputs=inputs, choices=choices), params=self.params)
+        env = Env(sub, concrete=dict(inputs=inputs, choices=choices, sampler=sampler), params=self.params)
         sym.set_run(None)
         try:
             self.harness(env)
